@@ -194,6 +194,8 @@ def path_violations(view):
     return viol
 
 
+TWOFIELD_DETS = ('rekey-to', 'can-close-account', 'can-close-asset', 'is-updatable', 'is-deletable', 'unprotected-updatable', 'unprotected-deletable')
+
 def exact_violations(view, envs, results):
     """exactness on the direct-check family, where the concrete semantics IS the literal reading:
     C06: a size / index is listed for a block iff some accepting execution through it has that size / index;
@@ -225,6 +227,18 @@ def exact_violations(view, envs, results):
             if all_sizes_tried:
                 viol[('C06', 'exact-empty', f"b{b}", 0)] = f"block {b} is on no accepting execution but lists sizes {c['sizes']}"
     gfee = any(' gtxn 0 Fee' in l or 'gtxn,0,Fee' in l for l in getattr(view, 'lines', []))
+    if len(envs) == 288 and all(e[0] == 1 for e in envs):
+        # the kind-check x address-check family: the enumeration covers every region, so every detector's verdict is exact
+        dangerous2 = set()
+        for (size, self_idx, txns), r in zip(envs, results):
+            if r['tag'] != 'accept': continue
+            for det in TWOFIELD_DETS:
+                if O.is_dangerous(det, size, txns[self_idx], r['blocks'], view.abs_blocks): dangerous2.add(det)
+        for det in TWOFIELD_DETS:
+            ps = view.paths.get(det)
+            if ps and det not in dangerous2:
+                viol[('C03', det, 'imprecise', 0)] = f"{det} reports {ps} although no accepting execution carries the dangerous value (every accepting path excludes it)"
+        return viol
     for det in ('missing-fee-check', 'group-size-check'):
         ps = view.paths.get(det)
         if ps and det not in dangerous and not gfee:
@@ -370,7 +384,9 @@ def process(item):
         if (nenv or item.get('envs')) and (iv.analysed or mv.analysed):
             rng = random.Random(f"env/{item.get('seed', 0)}/{name}")
             info = info_from_toks(toks)
-            if item.get('exact'):
+            if item.get('exact') == 'twofield':
+                envs = O.twofield_envs(' '.join(toks))
+            elif item.get('exact'):
                 envs = O.exact_envs(info, ' '.join(toks))
             elif item.get('envs'):
                 envs = [(e['size'], e['self'], {int(i): m for i, m in e['txns'].items()}) for e in item['envs']]
